@@ -41,6 +41,7 @@ MAX_REF_DRAWS = 40_000_000  # per cell, harness guard (inconclusive)
 MAX_POPULATIONS = 4000
 
 KEY_F13 = f"populate:per-batch-max:accepted-per-batch<{K_BATCH}"
+KEY_F13_REJ = "rejection." + KEY_F13
 
 RULE_B = (
     "(B) distribution cells: Hypothesis-generated proposal configurations "
@@ -179,6 +180,36 @@ class _Prior:
         if self.kind == "uniform":
             return self.lo[i] + (self.hi[i] - self.lo[i]) * q
         return self.s * ndtri(self.pa + q * (self.pb - self.pa))
+
+
+def _make_model(spec):
+    """The analytic test model; with "lax_prior" its log_prior does not mask
+    the bounds (the proposal's own bounds check is then the only thing that
+    keeps a pool inside the prior)."""
+    from .models import make_model
+
+    spec = dict(spec)
+    lax = bool(spec.pop("lax_prior", False))
+    model = make_model(spec)
+    if not lax:
+        return model
+    base = type(model)
+
+    class Lax(base):
+        def in_bounds(self, x):
+            if getattr(self, "_lax_eval", False):
+                return np.ones(np.shape(x), dtype=bool)
+            return base.in_bounds(self, x)
+
+        def log_prior(self, x):
+            self._lax_eval = True
+            try:
+                return base.log_prior(self, x)
+            finally:
+                self._lax_eval = False
+
+    model.__class__ = Lax
+    return model
 
 
 # --------------------------------------------------------------- statistics
@@ -366,8 +397,17 @@ class _Recorder:
         self.weighted_batches = 0
         self.log_max = []
         self.exp_acc = 0.0
+        self.min_log_q = None
         draw = fp.draw_latent_prior
         weights = fp.compute_weights
+        forward = fp.forward_pass
+
+        def forward_pass(x, *a, **kw):
+            res = forward(x, *a, **kw)
+            if x is fp.training_data:
+                # populate(): threshold of the log-q truncation
+                self.min_log_q = float(np.min(res[1]))
+            return res
 
         def draw_latent_prior(n):
             z = draw(n)
@@ -391,6 +431,7 @@ class _Recorder:
 
         fp.draw_latent_prior = draw_latent_prior
         fp.compute_weights = compute_weights
+        fp.forward_pass = forward_pass
 
 
 def _std_normal_logpdf(z):
@@ -402,7 +443,7 @@ class _Contour:
     """What one population used to restrict its draws (read back from the
     proposal after populate())."""
 
-    def __init__(self, fp, case):
+    def __init__(self, fp, case, rec):
         self.radial = case["latent_prior"] in (
             "truncated_gaussian", "uniform_nsphere", "uniform_nball")
         self.r = float(fp.r)
@@ -410,10 +451,11 @@ class _Contour:
         self.alt = fp.alt_dist is not None
         self.min_log_q = None
         if case["truncate_log_q"]:
-            # exactly the expression populate() evaluates (deterministic for
-            # the reparameterisations generated; augmented: see _member)
-            self.min_log_q = float(
-                fp.forward_pass(fp.training_data)[1].min())
+            # the value populate() itself computed (recorded passively; with
+            # augment parameters it is random per population)
+            if rec.min_log_q is None:
+                raise HarnessError("log-q threshold was not observed")
+            self.min_log_q = rec.min_log_q
 
     def key(self):
         return (self.r, self.fuzz, self.min_log_q)
@@ -435,7 +477,7 @@ def _forward(fp, case, x, rs):
     return fp.forward_pass(lp, rescale=True, compute_radius=False)
 
 
-def _member(fp, case, contour, x, rs):
+def _member(fp, case, contour, x, rs, count=None):
     z, log_q = _forward(fp, case, x, rs)
     z = np.asarray(z, float)
     keep = np.isfinite(z).all(axis=1)
@@ -452,6 +494,10 @@ def _member(fp, case, contour, x, rs):
             alt = np.where((np.abs(z) <= rr).all(axis=1),
                            -d * math.log(2 * rr), -np.inf)
             used = used - _std_normal_logpdf(z) + alt
+        if count is not None:
+            count["in_radius"] += int(keep.sum())
+            count["cut_by_log_q"] += int(
+                (keep & ~(used > contour.min_log_q)).sum())
         keep &= used > contour.min_log_q
     return keep
 
@@ -462,11 +508,12 @@ def _reference(fp, case, prior, groups, rs):
     tried = 0
     kept = 0
     batch = 50_000
+    count = {"in_radius": 0, "cut_by_log_q": 0}
     for contour, n in groups:
         have = 0
         while have < n:
             x = prior.sample(batch, rs)
-            keep = _member(fp, case, contour, x, rs)
+            keep = _member(fp, case, contour, x, rs, count)
             tried += batch
             y = x[keep][: n - have]
             kept += int(keep.sum())
@@ -474,7 +521,8 @@ def _reference(fp, case, prior, groups, rs):
             out.append(y)
             if tried > MAX_REF_DRAWS and have < n:
                 raise _Inconclusive("reference-budget")
-    return np.concatenate(out), kept / max(tried, 1)
+    cut = count["cut_by_log_q"] / max(count["in_radius"], 1)
+    return np.concatenate(out), kept / max(tried, 1), cut
 
 
 # ------------------------------------------------------------ cell: judge
@@ -495,8 +543,8 @@ def _judge(case, tests, meas):
         and not case["accumulate_weights"]
     ) or case["proposal"] == "rejection"
     if per_batch and apb is not None and apb < K_BATCH:
-        raise Violation(
-            KEY_F13,
+        v = Violation(
+            KEY_F13_REJ if case["proposal"] == "rejection" else KEY_F13,
             f"pool of {N_POINTS} points differs from the prior restricted "
             f"to the contour ({detail}; threshold {thr:.3g}); weights are "
             "normalised by the maximum of each batch and only "
@@ -506,7 +554,9 @@ def _judge(case, tests, meas):
             f"{meas.get('log_max_sd', float('nan')):.2f})",
             case,
         )
-    raise Violation(
+        v.meas = meas
+        raise v
+    v = Violation(
         "pool!=prior-in-contour:" + case["proposal"] + ":"
         + worst[0].split(":")[0],
         f"pool of {N_POINTS} points differs from the prior restricted to "
@@ -515,12 +565,12 @@ def _judge(case, tests, meas):
         f"{meas.get('acceptance')})",
         case,
     )
+    v.meas = meas
+    raise v
 
 
 def _run_flow_cell(case, out):
-    from .models import make_model
-
-    model = make_model(case["model"])
+    model = _make_model(case["model"])
     prior = _Prior(case["model"])
     meas = {}
     fp = _build_flow_proposal(case, model, out)
@@ -545,6 +595,7 @@ def _run_flow_cell(case, out):
         if npop > MAX_POPULATIONS:
             raise _Inconclusive("population-budget")
         d0 = rec.draws
+        rec.min_log_q = None
         _nessai(cname + ".populate", case, fp.populate, worst,
                 N=fp.poolsize, plot=False)
         s = fp.samples
@@ -555,7 +606,7 @@ def _run_flow_cell(case, out):
         n_acc += float(fp.population_acceptance) * (rec.draws - d0)
         x = np.stack([s[n] for n in model.names], -1).astype(float)
         x = x[: N_POINTS - total]
-        c = _Contour(fp, case)
+        c = _Contour(fp, case, rec)
         if groups and groups[-1][0].key() == c.key():
             groups[-1][1] += len(x)
         else:
@@ -579,9 +630,18 @@ def _run_flow_cell(case, out):
         meas["accepted_per_population"] = n_acc / npop
     if not np.isfinite(pool).all():
         raise Violation("pool:non-finite", "pool contains NaN/inf", case)
+    outside = ((pool < prior.lo) | (pool > prior.hi)).any(axis=1)
+    if outside.any():
+        v = Violation(
+            "pool:out-of-bounds:" + case["proposal"],
+            f"{int(outside.sum())} of {len(pool)} pool points lie outside "
+            f"the prior bounds (first: {pool[outside][0].tolist()})", case)
+        v.meas = meas
+        raise v
     rs = np.random.RandomState((case["seed"] + 2) % (2**32))
-    ref, frac = _reference(fp, case, prior, groups, rs)
+    ref, frac, cut = _reference(fp, case, prior, groups, rs)
     meas["contour_prior_fraction"] = frac
+    meas["log_q_cut_fraction"] = cut
     s, dof, p, nb = chi2_two_sample(pool, ref)
     tests = [("chi2-2d", s, p)]
     meas["chi2_bins"] = nb
@@ -594,9 +654,8 @@ def _run_flow_cell(case, out):
 
 def _run_uninformed_cell(case):
     from nessai.proposal import AnalyticProposal, RejectionProposal
-    from .models import make_model
 
-    model = make_model(case["model"])
+    model = _make_model(case["model"])
     prior = _Prior(case["model"])
     cls = RejectionProposal if case["proposal"] == "rejection" else (
         AnalyticProposal)
@@ -645,3 +704,461 @@ def check_cell(case):
         return _run_flow_cell(case, out)
     finally:
         shutil.rmtree(out, ignore_errors=True)
+
+
+# --------------------------------------------------------------- generator
+_SEEDS = st.integers(0, 2**31 - 1)
+LATENT_PRIORS = ["truncated_gaussian", "gaussian", "uniform_nsphere",
+                 "uniform_nball", "flow"]
+RADIAL = ("truncated_gaussian", "uniform_nsphere", "uniform_nball")
+REPARAMS = ["zscore", "rescaletobounds", "logit", "mixed", "mixed-bounds"]
+UNIFORM_MODELS = [
+    {"name": "gauss_uniform", "dims": 2, "lo": -5.0, "hi": 5.0},
+    {"name": "gauss_uniform", "dims": 2, "lo": -4.0, "hi": 6.0},
+    {"name": "gauss_uniform", "dims": 2, "lo": [0.0, 10.0],
+     "hi": [1.0, 20.0]},
+]
+NONUNIFORM_MODELS = [
+    {"name": "gauss_gauss", "dims": 2},
+    {"name": "gauss_gauss", "dims": 2, "b": 6.0, "s_p": 3.0},
+    {"name": "gauss_gauss", "dims": 2, "b": 4.0, "s_p": 1.5},
+]
+
+
+@st.composite
+def cells(draw, forced=None):
+    """One distribution cell.  `forced` fixes some options (stratification);
+    everything else is drawn here."""
+    forced = dict(forced or {})
+
+    def pick(name, strategy):
+        if name in forced:
+            return forced[name]
+        return draw(strategy)
+
+    proposal = pick("proposal", st.sampled_from(
+        ["flow"] * 6 + ["augmented"] * 2 + ["rejection", "analytic"]))
+    seed = draw(_SEEDS)
+    prior_kind = pick("prior", st.sampled_from(["uniform", "nonuniform"]))
+    if proposal in ("rejection", "analytic"):
+        if prior_kind == "uniform":
+            model = dict(draw(st.sampled_from(UNIFORM_MODELS)))
+        else:
+            model = dict(draw(st.sampled_from(
+                NONUNIFORM_MODELS + [{"name": "gauss_gauss", "dims": 2,
+                                      "s_p": 1.0}])))
+            if proposal == "analytic":
+                model["analytic_new_point"] = True
+        return {
+            "kind": "dist-cell", "proposal": proposal, "model": model,
+            "poolsize": pick("poolsize", st.sampled_from(
+                [100, 300, 1000, 1000, 5000])),
+            "seed": seed,
+        }
+    model = dict(draw(st.sampled_from(
+        UNIFORM_MODELS if prior_kind == "uniform" else NONUNIFORM_MODELS)))
+    if pick("lax_prior", st.sampled_from([False] * 5 + [True])):
+        model["lax_prior"] = True
+    lp = pick("latent_prior", st.sampled_from(
+        ["truncated_gaussian"] * 3 + LATENT_PRIORS))
+    radial = lp in RADIAL
+    case = {"kind": "dist-cell", "proposal": proposal, "model": model,
+            "latent_prior": lp, "seed": seed}
+    acc = bool(pick("accumulate_weights", st.booleans()))
+    case["accumulate_weights"] = acc
+    cvm = bool(pick("constant_volume_mode", st.booleans())) and radial
+    case["constant_volume_mode"] = cvm
+    case["expansion_fraction"] = None
+    case["fuzz"] = 1.0
+    if cvm:
+        case["volume_fraction"] = draw(st.sampled_from([0.9, 0.95, 0.99]))
+        # ignored in this mode (the proposal resets fuzz to one)
+        case["expansion_fraction"] = draw(st.sampled_from([None, 4.0]))
+    elif radial:
+        size = pick("contour", st.sampled_from(
+            ["tight", "tight", "moderate", "wide"]))
+        if acc and size == "wide":
+            size = "moderate"  # accumulated draws would exceed the budget
+        kind = draw(st.sampled_from(["fuzz", "expansion", "fixed"]))
+        if kind == "fuzz":
+            case["fuzz"] = draw(st.sampled_from(
+                {"tight": [1.0, 1.05], "moderate": [1.1, 1.2, 1.3],
+                 "wide": [1.5, 2.0]}[size]))
+        elif kind == "expansion":
+            case["expansion_fraction"] = draw(st.sampled_from(
+                {"tight": [0.1], "moderate": [0.3, 0.5],
+                 "wide": [1.0, 4.0]}[size]))
+        else:
+            case["fixed_radius"] = draw(st.sampled_from(
+                {"tight": [2.0, 2.5, 3.0], "moderate": [3.0, 3.5],
+                 "wide": [4.0, 5.0]}[size]))
+            case["fuzz"] = draw(st.sampled_from([1.0, 1.0, 1.1]))
+        if draw(st.integers(0, 5)) == 0:
+            case["max_radius"] = draw(st.sampled_from([2.0, 3.0, 50.0]))
+        if draw(st.integers(0, 7)) == 0:
+            case["min_radius"] = draw(st.sampled_from([1.0, 3.0]))
+        if kind != "fixed" and draw(st.integers(0, 5)) == 0:
+            case["compute_radius_with_all"] = True
+    else:
+        # no contour: options that only shape the (unused) radius
+        case["expansion_fraction"] = draw(st.sampled_from([None, 4.0]))
+    case["truncate_log_q"] = bool(pick("truncate_log_q", st.sampled_from(
+        [False, False, True])))
+    case["reparam"] = pick("reparam", st.sampled_from(REPARAMS))
+    case["poolsize"] = pick("poolsize", st.sampled_from(
+        [50, 100, 200, 500, 1000, 2000, 5000]))
+    case["drawsize"] = pick("drawsize", st.sampled_from(
+        [2000, 1000, 5000, 10000, 20000, 2000, 500, 200]))
+    # flow
+    state = pick("state", st.sampled_from(["trained", "trained", "fresh"]))
+    ftype = "realnvp" if proposal == "augmented" else draw(
+        st.sampled_from(["realnvp", "realnvp", "nsf", "maf"]))
+    flow = {
+        "state": state, "ftype": ftype,
+        "n_blocks": draw(st.integers(1, 3)),
+        "n_layers": draw(st.integers(1, 2)),
+        "n_neurons": draw(st.sampled_from([4, 8, 16])),
+        "epochs": draw(st.integers(5, 20)),
+        "batch_size": draw(st.sampled_from([50, 100, 1000])),
+    }
+    if ftype != "maf":
+        flow["linear_transform"] = draw(st.sampled_from(
+            ["default", None, "permutation", "lu"]))
+    if draw(st.booleans()):
+        flow["batch_norm_between_layers"] = draw(st.booleans())
+    if draw(st.integers(0, 2)) == 0:
+        flow["lr"] = draw(st.sampled_from([1e-3, 5e-3]))
+    case["flow"] = flow
+    # training points
+    tk = pick("train", st.sampled_from(
+        ["blob", "blob", "edge", "wide", "prior"] if radial
+        else ["prior", "prior", "wide", "blob"]))
+    if tk == "prior":
+        case["train"] = {"kind": "prior"}
+    else:
+        lo = np.broadcast_to(np.asarray(model.get("lo", -float(
+            model.get("b", 6.0))), float), (2,))
+        hi = np.broadcast_to(np.asarray(model.get("hi", float(
+            model.get("b", 6.0))), float), (2,))
+        cf = {"blob": [0.3, 0.4, 0.5, 0.6, 0.7], "edge": [0.08, 0.15, 0.9],
+              "wide": [0.4, 0.5, 0.6]}[tk]
+        sf = {"blob": [0.04, 0.06, 0.08, 0.12], "edge": [0.06, 0.1],
+              "wide": [0.2, 0.3]}[tk]
+        case["train"] = {
+            "kind": tk,
+            "centre": [float(lo[i] + draw(st.sampled_from(cf))
+                             * (hi[i] - lo[i])) for i in range(2)],
+            "sd": [float(draw(st.sampled_from(sf)) * (hi[i] - lo[i]))
+                   for i in range(2)],
+        }
+    case["n_train"] = draw(st.sampled_from([100, 200, 500, 1000]))
+    case["worst_rank"] = draw(st.sampled_from([0.0, 0.0, 0.25, 0.5]))
+    if proposal == "augmented":
+        case["augment_dims"] = draw(st.sampled_from([1, 1, 2]))
+        case["generate_augment"] = pick(
+            "generate_augment", st.sampled_from(["gaussian", "zeros"]))
+    return case
+
+
+# Strata of the quick tier (one cell each; the thorough tier repeats them and
+# adds unconstrained cells).  Only the listed options are fixed.
+_TG, _NB, _NS = "truncated_gaussian", "uniform_nball", "uniform_nsphere"
+TEMPLATES = [
+    dict(proposal="flow", latent_prior=_TG, constant_volume_mode=True,
+         reparam="zscore", accumulate_weights=False, prior="uniform",
+         state="trained", lax_prior=False),
+    dict(proposal="flow", latent_prior=_TG, constant_volume_mode=True,
+         reparam="logit", accumulate_weights=False, state="trained",
+         lax_prior=False),
+    dict(proposal="flow", latent_prior=_TG, constant_volume_mode=True,
+         reparam="mixed", accumulate_weights=True, lax_prior=False),
+    dict(proposal="flow", latent_prior=_TG, constant_volume_mode=True,
+         reparam="rescaletobounds", accumulate_weights=True,
+         prior="nonuniform", state="trained"),
+    dict(proposal="flow", latent_prior=_TG, constant_volume_mode=False,
+         contour="moderate", accumulate_weights=True, reparam="zscore",
+         truncate_log_q=False),
+    dict(proposal="flow", latent_prior=_TG, constant_volume_mode=False,
+         contour="moderate", accumulate_weights=False, drawsize=20000,
+         reparam="mixed-bounds", state="trained"),
+    dict(proposal="flow", latent_prior=_TG, constant_volume_mode=False,
+         contour="wide", accumulate_weights=False, truncate_log_q=False),
+    dict(proposal="flow", latent_prior=_TG, constant_volume_mode=True,
+         lax_prior=True, train="edge", reparam="zscore", state="fresh"),
+    dict(proposal="flow", latent_prior=_NB, constant_volume_mode=False,
+         contour="moderate", lax_prior=True, train="edge",
+         reparam="rescaletobounds", state="trained"),
+    dict(proposal="flow", latent_prior=_NS, constant_volume_mode=True,
+         reparam="logit", prior="nonuniform"),
+    dict(proposal="flow", latent_prior=_NB, truncate_log_q=True,
+         contour="moderate", state="trained"),
+    dict(proposal="flow", latent_prior="gaussian", train="prior",
+         truncate_log_q=True, reparam="zscore", lax_prior=False),
+    dict(proposal="flow", latent_prior="gaussian", train="prior",
+         reparam="logit", accumulate_weights=True, state="trained"),
+    dict(proposal="flow", latent_prior="flow", train="wide",
+         reparam="mixed", prior="uniform"),
+    dict(proposal="flow", latent_prior="flow", train="blob",
+         accumulate_weights=False, truncate_log_q=False),
+    dict(proposal="flow", latent_prior=_TG, constant_volume_mode=False,
+         contour="moderate", truncate_log_q=True, accumulate_weights=True,
+         state="trained"),
+    dict(proposal="augmented", latent_prior=_TG, constant_volume_mode=True,
+         reparam="zscore", state="trained", lax_prior=False),
+    dict(proposal="augmented", latent_prior=_TG, constant_volume_mode=False,
+         contour="tight", generate_augment="gaussian", reparam="logit",
+         accumulate_weights=True),
+    dict(proposal="augmented", latent_prior=_NB, constant_volume_mode=True,
+         generate_augment="zeros", prior="nonuniform"),
+    dict(proposal="augmented", latent_prior="gaussian", train="prior",
+         state="trained"),
+    dict(proposal="rejection", prior="nonuniform", poolsize=1000),
+    dict(proposal="rejection", prior="uniform"),
+    dict(proposal="rejection", prior="nonuniform"),
+    dict(proposal="analytic", prior="nonuniform"),
+    dict(proposal="analytic", prior="uniform"),
+]
+
+# Cells executed on every run: the minimal reproductions of the per-batch
+# maximum finding (flow proposal and rejection proposal) with the controls
+# that differ only in the size of the normalisation set.
+_ANT_FLOW = dict(
+    kind="dist-cell", proposal="flow",
+    model={"name": "gauss_uniform", "dims": 2, "lo": -5.0, "hi": 5.0},
+    latent_prior="truncated_gaussian", constant_volume_mode=False,
+    fuzz=1.0, expansion_fraction=None, fixed_radius=4.0,
+    accumulate_weights=False, truncate_log_q=False, reparam="zscore",
+    poolsize=1000, drawsize=500,
+    flow={"state": "fresh", "ftype": "realnvp", "n_blocks": 2,
+          "n_layers": 1, "n_neurons": 8, "epochs": 5, "batch_size": 100},
+    train={"kind": "blob", "centre": [0.5, -0.3], "sd": [0.8, 0.6]},
+    n_train=500, worst_rank=0.0, seed=4242)
+ANTICIPATED = [
+    dict(_ANT_FLOW, label="F13:flow:drawsize=500"),
+    dict(_ANT_FLOW, label="F13-control:flow:drawsize=50000",
+         drawsize=50000),
+    dict(_ANT_FLOW, label="F13-control:flow:accumulate_weights",
+         accumulate_weights=True, drawsize=2000),
+    dict(kind="dist-cell", proposal="rejection", poolsize=20, seed=5,
+         model={"name": "gauss_gauss", "dims": 2, "s_p": 1.0},
+         label="F13:rejection:poolsize=20"),
+    dict(kind="dist-cell", proposal="rejection", poolsize=2000, seed=5,
+         model={"name": "gauss_gauss", "dims": 2, "s_p": 1.0},
+         label="F13-control:rejection:poolsize=2000"),
+]
+
+
+def classify(case, meas=None):
+    p = case["proposal"]
+    cl = ["proposal:" + p,
+          "prior:" + ("uniform" if case["model"]["name"] == "gauss_uniform"
+                      else "nonuniform")]
+    if p in ("flow", "augmented"):
+        cl += [
+            "latent:" + case["latent_prior"],
+            "cvm:%s" % bool(case["constant_volume_mode"]),
+            "accumulate:%s" % bool(case["accumulate_weights"]),
+            "truncate_log_q:%s" % bool(case["truncate_log_q"]),
+            "reparam:" + case["reparam"],
+            "flow:" + case["flow"]["state"],
+            "ftype:" + case["flow"]["ftype"],
+            "train:" + case["train"]["kind"],
+        ]
+        if case["model"].get("lax_prior"):
+            cl.append("lax-prior")
+        if case.get("fixed_radius"):
+            cl.append("fixed_radius")
+        if not case["constant_volume_mode"] and (
+                case.get("fuzz", 1.0) != 1.0
+                or case.get("expansion_fraction")):
+            cl.append("fuzz>1")
+    if meas:
+        acc = meas.get("acceptance")
+        if acc is not None and acc < 1:
+            cl.append("acceptance<1")
+        apb = meas.get("accepted_per_batch")
+        if apb is not None:
+            cl.append("accepted-per-batch<%d" % K_BATCH if apb < K_BATCH
+                      else "accepted-per-batch>=%d" % K_BATCH)
+        if meas.get("log_q_cut_fraction", 0) >= 0.01:
+            cl.append("truncation-active")
+        if meas.get("contours", 1) > 1:
+            cl.append("contour-varies-per-population")
+        if 0 < meas.get("contour_prior_fraction", 0) < 1 and p in (
+                "flow", "augmented") and case["latent_prior"] in RADIAL:
+            cl.append("contour-inside-prior")
+    return ["dist:" + c for c in cl]
+
+
+def _nontrivial(case, meas):
+    return bool(
+        case["proposal"] in ("flow", "augmented")
+        and case["flow"]["state"] == "trained"
+        and meas and meas.get("acceptance", 1) < 1
+    )
+
+
+def _brief(case, meas=None):
+    d = {k: v for k, v in case.items()}
+    if meas:
+        d["measured"] = {
+            k: meas[k] for k in (
+                "r", "fuzz", "acceptance", "accepted_per_batch",
+                "contour_prior_fraction", "min_p", "populations")
+            if k in meas
+        }
+    return d
+
+
+# ------------------------------------------------------------------ shards
+def shard(cases):
+    """Execute cells in this (fresh) process.  Every violation is returned;
+    the parent decides which are recorded findings."""
+    _quiet()
+    out = Outcome()
+    stats = out.stats
+    agg = stats.extra.setdefault("dist_measured", {})
+    rows = stats.extra.setdefault("dist_cells", [])
+    for case in cases:
+        label = case.get("label")
+        case = {k: v for k, v in case.items() if k != "label"}
+        meas, status = None, "pass"
+        import os, time
+        t0 = time.time()
+        try:
+            meas = check_cell(case)
+        except Violation as v:
+            meas = getattr(v, "meas", None)
+            status = v.key
+            d = v.as_dict()
+            d["anticipated"] = label
+            out.add(d)
+        except _Inconclusive as e:
+            status = "inconclusive:" + str(e)
+            stats.inconclusive += 1
+            agg["inconclusive:" + str(e)] = agg.get(
+                "inconclusive:" + str(e), 0) + 1
+        cl = classify(case, meas)
+        if label:
+            cl.append("dist:anticipated")
+        if status.startswith("inconclusive"):
+            cl.append("dist:inconclusive")
+        elif status == "pass":
+            cl.append("dist:passed")
+        stats.case(_brief(case, meas), nontrivial=_nontrivial(case, meas),
+                   classes=cl, key=jhash(case), n=N_POINTS)
+        agg["cells"] = agg.get("cells", 0) + 1
+        if meas:
+            agg["tests"] = agg.get("tests", 0) + int(meas.get("tests", 0))
+        if os.environ.get("C09B_TIMING"):
+            print("[cell] %.1fs %s %s draws=%s ref_frac=%s" % (
+                time.time() - t0, status, jhash(case),
+                meas and meas.get("latent_draws"),
+                meas and meas.get("contour_prior_fraction")), flush=True)
+        rows.append({
+            "label": label or "", "status": status, "hash": jhash(case),
+            "proposal": case["proposal"],
+            "min_p": None if not meas else meas.get("min_p"),
+            "accepted_per_batch": None if not meas else meas.get(
+                "accepted_per_batch"),
+        })
+    return out
+
+
+def plan(ctx):
+    """The cells of a tier: the anticipated cells, then one (quick) or four
+    (thorough) Hypothesis-drawn cells per stratum, then unconstrained
+    cells (thorough).  quick: 5 + 25 = 30 cells (90 tests); thorough:
+    5 + 100 + 20 = 125 cells (375 tests)."""
+    from . import configs
+
+    per, free = (1, 0) if ctx.quick else (4, 20)
+    out = [dict(c) for c in ANTICIPATED]
+    # Hypothesis starts every run with its simplest example (first element
+    # of every choice): collect more than needed and keep the last ones
+    for i, forced in enumerate(TEMPLATES):
+        got = configs.collect(cells(forced), ctx.seed * 1000 + i, per + 3)
+        out += got[-per:]
+    if free:
+        got = configs.collect(cells(), ctx.seed * 1000 + 999, free + 3)
+        out += got[-free:]
+    return out
+
+
+def run_cells(ctx):
+    cases = plan(ctx)
+    # heavy cells first; 2 (quick) / 4 (thorough) cells per process
+    per = 2 if ctx.quick else 4
+    order = sorted(range(len(cases)), key=lambda i: (
+        0 if cases[i].get("flow", {}).get("state") == "trained" else 1, i))
+    chunks = [[] for _ in range(max(1, math.ceil(len(cases) / per)))]
+    for j, i in enumerate(order):
+        chunks[j % len(chunks)].append(cases[i])
+    raw = run_shards("vf.c09_dist", "shard", [dict(cases=c) for c in chunks])
+    out = Outcome(raw.stats)
+    stats = out.stats
+    for v in raw.violations:
+        label = v.pop("anticipated", None)
+        if ctx.known(v["key"]) is not None:
+            stats.excluded_known[v["key"]] += 1
+            stats.classes["dist:known:" + v["key"]] += 1
+            if not label:
+                continue  # recorded finding: counted, the search goes on
+        out.violations.append(v)
+    stats.extra["dist_test_budget"] = TEST_BUDGET
+    stats.extra["dist_threshold"] = P_THRESHOLD / TEST_BUDGET
+    stats.extra["dist_points_per_cell"] = N_POINTS
+    return out
+
+
+def health_cells(ctx, stats):
+    """Generator-coverage problems of the distribution part."""
+    bad = []
+    m = stats.extra.get("dist_measured", {})
+    n_cells = m.get("cells", 0)
+    if m.get("tests", 0) > TEST_BUDGET:
+        bad.append(f"{m.get('tests')} statistical tests exceed the "
+                   f"Bonferroni budget {TEST_BUDGET}")
+    k = 1 if ctx.quick else 4
+    need = {
+        "proposal:flow": 12 * k, "proposal:augmented": 3 * k,
+        "proposal:rejection": 3 * k, "proposal:analytic": 2 * k,
+        "prior:uniform": 6 * k, "prior:nonuniform": 6 * k,
+        "latent:truncated_gaussian": 6 * k, "latent:gaussian": 2 * k,
+        "latent:uniform_nsphere": k, "latent:uniform_nball": 2 * k,
+        "latent:flow": 2 * k, "cvm:True": 5 * k, "cvm:False": 5 * k,
+        "accumulate:True": 4 * k, "accumulate:False": 4 * k,
+        "truncate_log_q:True": 3 * k, "truncation-active": k,
+        "reparam:zscore": 2 * k, "reparam:rescaletobounds": 2 * k,
+        "reparam:logit": 2 * k, "reparam:mixed": 2 * k,
+        "flow:trained": 8 * k, "flow:fresh": 2 * k, "lax-prior": 2 * k,
+        "fuzz>1": 3 * k, "acceptance<1": 12 * k,
+        "accepted-per-batch>=%d" % K_BATCH: 8 * k,
+        "contour-inside-prior": 6 * k, "passed": 15 * k,
+        "anticipated": len(ANTICIPATED),
+    }
+    for c, lo in need.items():
+        n = stats.classes.get("dist:" + c, 0)
+        if n < lo:
+            bad.append(f"class dist:{c} has only {n} cells (< {lo})")
+    if stats.classes.get("dist:inconclusive", 0) > 0.15 * max(n_cells, 1):
+        bad.append(f"{stats.classes.get('dist:inconclusive')} of {n_cells} "
+                   "distribution cells inconclusive")
+    # the controls of the anticipated finding must pass, the reproductions
+    # must fail: otherwise the bucket boundary means nothing
+    for row in stats.extra.get("dist_cells", []):
+        lab = row.get("label") or ""
+        if lab.startswith("F13-control") and row["status"] != "pass":
+            bad.append(f"control cell {lab} did not pass: {row['status']}")
+    return bad
+
+
+def replay_cell(ctx, case):
+    case = {k: v for k, v in case.items() if k not in ("label", "extra")}
+    try:
+        check_cell(case)
+    except Violation as v:
+        return [v]
+    except _Inconclusive as e:
+        raise HarnessError(f"replayed cell is inconclusive: {e}")
+    return []
